@@ -77,6 +77,26 @@ func (v *Vue) evalInclude(ctx VueContext, node *html.Node, vars map[string]any, 
 		return nil, fmt.Errorf("error in %s (included from %s): %w", name, ctx.FormatTemplateChain(), err)
 	}
 
+	// A component whose root is a <template> element has been evaluated completely by
+	// evalTemplate (in the scope of that root); evaluating the result a second time would run
+	// conditions and interpolation again outside the loop and slot scopes they belong to.
+	if isEvaluatedTemplateRoot(compDom, processedDom) {
+		return processedDom, nil
+	}
+
 	childCtx := ctx.WithTemplate(name)
 	return v.evaluate(childCtx, processedDom, depth+1)
+}
+
+// isEvaluatedTemplateRoot reports whether evalTemplate replaced the component's root <template>
+// element by its evaluated children (as opposed to returning the nodes untouched, which it does
+// for components without a template root and for a root carrying v-html).
+func isEvaluatedTemplateRoot(compDom, processedDom []*html.Node) bool {
+	if len(compDom) == 0 || compDom[0].Type != html.ElementNode || compDom[0].Data != "template" {
+		return false
+	}
+	if helpers.HasAttr(compDom[0], "include") {
+		return true // the nested include has been evaluated by evalInclude
+	}
+	return !(len(processedDom) == len(compDom) && len(processedDom) > 0 && processedDom[0] == compDom[0])
 }
